@@ -15,6 +15,14 @@ DESCRIPTIONS = ["Fedora 20", "Red Hat Enterprise Linux 7.1", "a", "100% pure", "
 SIMPLE_TS = [1417653911.123456, 1.0, 0.5, -3.25, 1e22, 1.5e-7, 123456789.0, 2.0 ** 53, 1e300, 5e-324, 1417653911.0]
 
 
+# audit additions: delimiters and doubled forms, quotes INSIDE, non-ASCII digits, astral, type-like values
+DESCRIPTIONS += ["a@b", "a,,b", "a--b", "a..b", "a::b", "a//b", "a;;b", "a==b", "a##b", 'in "the" middle', "mid'dle", "\u0663\uff17", "\U0001F600 x",
+                 "None", "null", "0", "False", "1.0", "a  b", "x ;y", "x #y", "[s]", "k = v"]
+ARCHES += ["ppc", "ppc64", "my arch", "SRC", "a;b", "\u00e9"]
+DISC_POOL = [[1], [0], [-1], [1, 2, 3], [3, 2, 1], [10, 11], [1, 1], [2 ** 31], [2 ** 32 + 7], [2 ** 53 + 1], [2 ** 63 - 1], [10 ** 7, 10 ** 8], [7] * 40, ["ALL"]]
+SIMPLE_TS += [-1.0, 1.5, 2.5, -0.5, 2.0 ** 31, 2.0 ** 32 + 7, 2.0 ** 53 + 2, 2.0 ** 63, 1e7, 1e8, 1e16, 123456789.987654321, 1e-5, 0.1, -1e-300]
+
+
 def mod():
     checklib.use_repo()
     import productmd.discinfo
